@@ -117,6 +117,11 @@ def run(tier: str) -> int:
     model2, mres2 = docs.model_docs(*bound2, leafs={"P", "H", "B", "C", "T", "R"})
     chk.add_tlc(mres2)
     model = {**model2, **model}
+    # third instance: deep nesting with paragraphs and blank lines only (prefix bookkeeping five containers deep: D50 needed depth 5)
+    bound3 = (7, 5) if tier == "quick" else (9, 5)
+    model3, mres3 = docs.model_docs(*bound3, leafs={"P", "B"})
+    chk.add_tlc(mres3)
+    model = {**model3, **model}
     # ---- family S ----
     jobs, seen = [], set()
     import harness.docgen as dg
